@@ -769,6 +769,12 @@ func batch(p Prop, seed uint64, tier string, count int, budget float64, workers 
 			}
 		}
 	}
+	// every listed finding gets its line, also when this batch's sample did not meet it
+	for _, k := range known {
+		if knownHits[k.ID] == 0 {
+			fmt.Printf("KNOWN-FINDING: property=%s %s [not met by this run's sample]\n", p.ID(), k.Line)
+		}
+	}
 	if len(unrepro) > 0 {
 		if exit == 0 {
 			fmt.Fprintf(os.Stderr, "INFRASTRUCTURE: worker process(es) crashed in run(s) %v but neither those runs nor the runs before them crash a fresh process, and nothing else was found\n", unrepro)
